@@ -17,7 +17,10 @@ Harness
 * per case the description goes through the real `TaskDescription.verify()`
   and msgpack, then the real `Popen._handle_task()` writes `<uid>.exec.sh` /
   `<uid>.launch.sh` and starts the launch script with the real
-  `_launch_task()` (`subprocess.Popen`); the harness only waits for it;
+  `_launch_task()` (`subprocess.Popen`); the harness only waits for it.
+  Variant `start=script`: the harness starts the generated launch script
+  itself from another directory (the property is about the scripts: they,
+  not the caller's cwd, have to reach the task sandbox);
 * the harness plays `mpirun`: `-np N ... <exec.sh>` runs the generated exec
   script N times concurrently with PMIX_RANK=i, waits for all and returns the
   first non-zero status;
@@ -36,16 +39,22 @@ Reference
 What the description says: argv is the argument list (`$RP_TASK_ID` being the
 positive test of the documented expansion), cwd the task sandbox, each
 environment entry has its value, RP_* describe the task, stdout/stderr are
-where described (default `<uid>.out/.err` in the sandbox) and hold the probe's
-output, the marker sequence of each rank is pre-marks, exec, post-marks with
-per-rank entries only on their rank, cut at the first failing command; exit
-status is the probe's unless a pre/post command failed (then non-zero).
+where described (default `<uid>.out/.err` in the sandbox; one file if both are
+described as the same) and hold the probe's output, the marker sequence of
+each rank is pre-marks, exec, post-marks with per-rank entries only on their
+rank, cut at the first failing command; a variable exported by pre_exec is
+seen by the executable, CUDA_VISIBLE_DEVICES names the GPUs of the rank's
+slot, no C10_* variable of another task is seen; exit status is the probe's
+unless a pre/post command failed (then non-zero).
 
 Every case runs after the previous cases of the same worker on one long-lived
-executor (as in an agent).  A failing case is re-run on a fresh executor
-(history dependence), then shrunk (fields back to the base value, list
-elements removed) while the same clause keeps failing; the violation key is
-derived from the shrunk case.
+executor (as in an agent).  A failing case is re-run on a fresh executor; if
+it holds there, the earlier task(s) it needs are searched in the worker's
+history.  The counterexample is shrunk (launcher to FORK, fields back to the
+base value, list elements removed; the earlier task likewise) while the same
+clause keeps failing, and the violation key `clause|site|trigger` is derived
+from the shrunk case: trigger = abstract values of its non-base fields
+(`after(<earlier task>):<task>` if history is needed).
 '''
 
 import os
@@ -204,8 +213,11 @@ FIELDS = {
                _env_lists(ENV_ATOMS, True),
                _env_lists(ENV_ATOMS, True) +
                _env_lists(ENV_EXTRA, False)[1:]),
-    'stdout': (['', 'my.out', 'ABS'], ['', 'my.out', 'ABS'], None),
-    'stderr': (['', 'my.err', 'ABS'], ['', 'my.err', 'ABS'], None),
+    # `both.log` in both: stdout and stderr described as the same file
+    'stdout': (['', 'my.out', 'ABS', 'both.log'],
+               ['', 'my.out', 'ABS', 'both.log'], None),
+    'stderr': (['', 'my.err', 'ABS', 'both.log'],
+               ['', 'my.err', 'ABS', 'both.log'], None),
     'pre'   : (PRE_CORE,  PRE_FULL,  None),
     'post'  : (POST_CORE, POST_FULL, None),
     'gpus'  : ([0, 1], [0, 1, 2, 0.5], None),
@@ -214,12 +226,14 @@ FIELDS = {
     'exit'  : ([0, 3], [0, 3], None),
     'name'  : ([None, 'my task'], [None, 'my task'], None),
     'sbox'  : (['in', 'out'], ['in', 'out'], None),
+    'start' : (['popen', 'script'], ['popen', 'script'], None),
 }
 
 BASE = {'lm': 'FORK', 'ranks': 1,
         'exe': 'abs', 'args': ['a'], 'env': [], 'stdout': '', 'stderr': '',
         'pre': ['mark:A'], 'post': ['mark:Z'], 'gpus': 0, 'cpr': 1,
-        'sync': False, 'exit': 0, 'name': None, 'sbox': 'in'}
+        'sync': False, 'exit': 0, 'name': None, 'sbox': 'in',
+        'start': 'popen'}
 
 LAUNCHERS_QUICK    = [('FORK', 1), ('MPIRUN', 2)]
 LAUNCHERS_THOROUGH = [('FORK', 1), ('MPIRUN', 2), ('MPIRUN', 1)]
@@ -313,6 +327,9 @@ def abstract(field, value):
 def trigger(case):
     parts = ['%s=%s' % (f, abstract(f, case[f])) for f in FIELDS
              if case[f] != BASE[f]]
+    if case['stdout'] and case['stdout'] == case['stderr']:
+        parts = [x for x in parts if not x.startswith(('stdout=', 'stderr='))]
+        parts.insert(0, 'stdout==stderr')
     if (case['lm'], case['ranks']) != (BASE['lm'], BASE['ranks']):
         parts.append('lm=%s/%d' % (case['lm'], case['ranks']))
     return ','.join(parts) or 'base'
@@ -365,7 +382,7 @@ exit $ret
 
 # `sleep 1` of the rank barrier polls faster (virtual clock)
 SLEEP_SH = '''#!/bin/sh
-exec /bin/sleep 0.02
+exec %(sleep)s 0.02
 '''
 
 
@@ -405,7 +422,8 @@ class World(object):
         _write(self.psbox + '/env/lm_fork.sh',   'export C10_LM_ENV=fork\n')
         _write(self.psbox + '/env/lm_mpirun.sh', 'export C10_LM_ENV=mpirun\n')
         _write(self.bin + '/mpirun', MPIRUN_SH % {'obs': self.obs}, 0o755)
-        _write(self.bin + '/sleep',  SLEEP_SH, 0o755)
+        _write(self.bin + '/sleep',  SLEEP_SH % {'sleep': shutil.which(
+                                     'sleep', path='/usr/bin:/bin')}, 0o755)
 
         self.probe_text = dict()
         for code in (0, 3):
@@ -636,6 +654,13 @@ class World(object):
         self.rm._launch_order = ['MPIRUN'] if case['lm'] == 'MPIRUN' \
                                            else ['FORK', 'MPIRUN']
 
+        # 'popen' : the real Popen._launch_task starts the launch script
+        # 'script': the launch script is started from another directory (the
+        #           pilot sandbox) -- it has to find the task sandbox itself
+        self.pex.__dict__.pop('_launch_task', None)
+        if case['start'] == 'script':
+            self.pex._launch_task = self._launch_script
+
         saved_env = dict(os.environ)
         saved_cwd = os.getcwd()
         try:
@@ -676,6 +701,17 @@ class World(object):
 
         shutil.rmtree(p['sbox'], ignore_errors=True)
         return obs
+
+
+    # --------------------------------------------------------------------------
+    def _launch_script(self, task):
+
+        out = open('%s/%s.launch.out' % (task['task_sandbox_path'],
+                                         task['uid']), 'w')
+        task['proc'] = sp.Popen(args=[task['launch_path']], stdin=None,
+                                stdout=out, stderr=sp.STDOUT, close_fds=True,
+                                start_new_session=True, cwd=self.psbox)
+        out.close()
 
 
     # --------------------------------------------------------------------------
@@ -771,6 +807,7 @@ SITES = {'argv'       : 'LaunchMethod._create_arg_string',
          'cwd'        : '_create_launch_script',
          'env-value'  : '_get_task_env',
          'pre-export' : '_get_prep_exec',
+         'env-foreign': '_create_exec_script',
          'gpu-assignment': '_extend_pre_exec',
          'stdout-file': '_get_launch',
          'stderr-file': '_get_launch',
@@ -897,6 +934,15 @@ def check(world, case, obs):
                  'pre_exec exported %s=%r, executable sees %r' % (k, v, g)
                  for k, v, g in bad)))
 
+        known = set(['C10_AGENT', 'C10_LM_ENV']) | set(exports) | \
+                set(k for k, _ in case['env'])
+        alien = sorted(k for k in env if k.startswith(('C10_', 'c10_'))
+                                      and k not in known)
+        if alien:
+            fail('env-foreign', 'rank %d: executable sees %s which this task '
+                                'does not describe'
+                                % (r, {k: env[k] for k in alien}))
+
         if case['gpus']:
             want_cvd = ','.join(str(g) for g in GPU_MAP[case['gpus']][r])
             if env.get('CUDA_VISIBLE_DEVICES') != want_cvd:
@@ -950,6 +996,12 @@ def check(world, case, obs):
     for which, tag in (('stdout', 'OUT'), ('stderr', 'ERR')):
         want = ['%s:%d' % (tag, r) for r in exec_ranks]
         got  = obs[which]
+        if p['stdout_file'] == p['stderr_file']:
+            # one file described for both streams: it holds both
+            want = ['%s:%d' % (t, r) for t in ('OUT', 'ERR')
+                                     for r in exec_ranks]
+            if which == 'stderr':
+                continue
         if got is None:
             fail('%s-file' % which, '%s does not exist (described: %r)'
                                     % (p[which + '_file'], case[which]))
@@ -1109,6 +1161,8 @@ _world   = None
 _recent  = list()           # last cases of this worker (history)
 _minimal = dict()           # (clause, site) -> [shrunk cases]
 _fresh_n = [0]
+_budget  = [0]              # fresh-executor runs left for shrinking
+_searches = [0]             # unsuccessful searches for a responsible history
 
 
 def fresh_world():
@@ -1118,6 +1172,7 @@ def fresh_world():
 
 
 def run_fresh(case, history=()):
+    _budget[0] -= 1 + len(history)
     w = fresh_world()
     try:
         for h in history:
@@ -1128,38 +1183,104 @@ def run_fresh(case, history=()):
         shutil.rmtree(w.root, ignore_errors=True)
 
 
+def _hits(clauses, clause, site):
+    return [w for c, s, w in clauses if (c, s) == (clause, site)]
+
+
 def report_violations(part, case, clauses, history):
-    '''key every failed clause by its shrunk case'''
+    '''
+    key every failed clause by its shrunk case (and, if it only fails after
+    earlier tasks of the same executor, by the shrunk earlier task)
+    '''
 
     for clause, site, what in clauses:
 
-        known = [m for m in _minimal.get((clause, site), [])
-                 if contains(case, m)]
+        # same root cause as a counterexample this worker already shrunk?
+        known = None
+        for hist_min, case_min in _minimal.get((clause, site), []):
+            if contains(case, case_min) and \
+               (not hist_min or any(contains(h, hist_min[0]) for h in history)):
+                known = (hist_min, case_min)
+                break
         if known:
-            part.violation('%s|%s|%s' % (clause, site, trigger(known[0])),
-                           {'what': what}, {'history': [], 'case': case})
+            part.violation(make_key(clause, site, *known), {'what': what},
+                           {'history': list(history) if known[0] else [],
+                            'case': case})
             continue
 
-        hits = [w for c, s, w in run_fresh(case) if (c, s) == (clause, site)]
-        if not hits:
-            # only after the cases this executor handled before
-            hist = list(history[-1:])
-            hits = [w for c, s, w in run_fresh(case, hist)
-                    if (c, s) == (clause, site)]
-            if not hits:
-                hist = list(history)
-            part.violation('%s|%s|history:%s' % (clause, site, trigger(case)),
-                           {'what': what,
-                            'note': 'holds on a fresh executor, fails after '
-                                    '%d earlier task(s)' % len(hist)},
-                           {'history': hist, 'case': case})
+        if _budget[0] <= 0:
+            part.violation('%s|%s|unshrunk:%s' % (clause, site, trigger(case)),
+                           {'what': what, 'note': 'shrink budget exhausted'},
+                           {'history': list(history[-8:]), 'case': case})
             continue
 
-        small, swhat = shrink(run_fresh, case, clause, site)
-        _minimal.setdefault((clause, site), list()).append(small)
-        part.violation('%s|%s|%s' % (clause, site, trigger(small)),
-                       {'what': swhat or what, 'first_seen': what},
-                       {'history': [], 'case': small})
+        hist = list()
+        if not _hits(run_fresh(case), clause, site):
+            # holds on a fresh executor: look for the earlier task it needs
+            hist = find_history(case, clause, site, history)
+            if hist is None:
+                part.violation('%s|%s|not-reproduced' % (clause, site),
+                               {'what': what,
+                                'note': 'seen once, not reproduced on a fresh '
+                                        'executor with the same history'},
+                               {'history': list(history[-8:]), 'case': case})
+                continue
+
+        small, swhat = shrink(lambda c: run_fresh(c, hist), case, clause, site)
+        if len(hist) == 1:
+            h, _ = shrink(lambda c: run_fresh(small, [c]), hist[0],
+                          clause, site)
+            hist = [h]
+        _minimal.setdefault((clause, site), list()).append((hist, small))
+        detail = {'what': swhat or what, 'first_seen': what}
+        if hist:
+            detail['note'] = 'holds on a fresh executor, fails after %d ' \
+                             'earlier task(s)' % len(hist)
+        part.violation(make_key(clause, site, hist, small), detail,
+                       {'history': hist, 'case': small})
+
+
+def find_history(case, clause, site, history):
+    '''earlier tasks of this executor after which `case` fails the clause'''
+
+    if _searches[0] >= 3:
+        return None
+    _searches[0] += 1
+
+    # a single earlier task, most recent first
+    seen = set()
+    for h in reversed(history):
+        if _key(h) in seen:
+            continue
+        seen.add(_key(h))
+        if len(seen) > 24:
+            break
+        if _hits(run_fresh(case, [h]), clause, site):
+            _searches[0] -= 1
+            return [h]
+
+    # all of them, then halves
+    hist = list(history)
+    if not _hits(run_fresh(case, hist), clause, site):
+        return None
+    while len(hist) > 1:
+        half = len(hist) // 2
+        if   _hits(run_fresh(case, hist[half:]), clause, site):
+            hist = hist[half:]
+        elif _hits(run_fresh(case, hist[:half]), clause, site):
+            hist = hist[:half]
+        else:
+            break
+    _searches[0] -= 1
+    return hist
+
+
+def make_key(clause, site, hist, case):
+    if hist:
+        return '%s|%s|after(%s):%s' % (clause, site,
+                                       ';'.join(trigger(h) for h in hist),
+                                       trigger(case))
+    return '%s|%s|%s' % (clause, site, trigger(case))
 
 
 def _job(idx):
@@ -1171,7 +1292,8 @@ def _job(idx):
     counts = dict()
 
     if _world is None:
-        _world = World('%s/c10.%d' % (_scratch, os.getpid()))
+        _world     = World('%s/c10.%d' % (_scratch, os.getpid()))
+        _budget[0] = 1500
 
     for i in range(k, len(_cases), n):
         kind, case = _cases[i]
@@ -1182,7 +1304,7 @@ def _job(idx):
             report_violations(part, case, clauses, _recent)
 
         _recent.append(case)
-        del _recent[:-8]
+        del _recent[:-300]
 
         key = '%s_%d' % (case['lm'].lower(), case['ranks'])
         counts[key] = counts.get(key, 0) + 1
@@ -1273,8 +1395,8 @@ def run(ctx):
                                 'CUDA_VISIBLE_DEVICES': {
                                     r: d[0]['env'].get('CUDA_VISIBLE_DEVICES')
                                     for r, d in obs['dumps'].items()}},
-                            'failed_clauses': [c for c, _, _
-                                               in check(w, case, obs)]})
+                            'failed_clauses': sorted(set(
+                                c for c, _, _ in check(w, case, obs)))})
                 break
     shutil.rmtree(w.root, ignore_errors=True)
 
@@ -1296,12 +1418,14 @@ def run(ctx):
                  'all ordered pairs of %d atoms: space, quotes, glob, empty, '
                  'unicode, dash, semicolon, backslash, hash, $RP_TASK_ID%s), '
                  'environment (none, singles and pairs of %d values%s), '
-                 'stdout / stderr (default, relative, absolute), pre_exec '
+                 'stdout / stderr (default, relative, absolute, one file '
+                 'for both), pre_exec '
                  '(%d lists: none, true, export, false, marks, per-rank '
                  'dicts with str / int keys, list values, partial, mixed), '
                  'post_exec (%d lists), GPUs per rank (%s, CUDA), cores per '
                  'rank, pre_exec_sync, exit code 0/3, task name, sandbox in '
-                 '/ outside the pilot sandbox.  Not enumerated: '
+                 '/ outside the pilot sandbox, launch script started by '
+                 'Popen._launch_task / from another directory.  Not enumerated: '
                  'pre_exec_sync with a pre_exec failing on one of two ranks '
                  '(barrier cannot complete without a real mpirun).  Each '
                  'case = generated launch + exec scripts run by bash after '
@@ -1354,8 +1478,14 @@ def replay(ctx, data):
         w.run_case(h)
     obs     = w.run_case(case, verbose=True)
     clauses = check(w, case, obs)
+    key     = (data.get('key') or '').split('|')
+    mine    = [c for c in clauses if len(key) > 2 and [c[0], c[1]] == key[1:3]]
+    if key[1:]:
+        print('replayed key: %s' % data.get('key'))
     for clause, site, what in clauses:
-        print('VIOLATED %s|%s :: %s' % (clause, site, what))
+        print('VIOLATED %s|%s :: %s%s' % (clause, site, what,
+              '' if (clause, site, what) in mine or not mine else
+              '   (another finding)'))
     if not clauses:
         print('no clause violated')
-    return 1 if clauses else 0
+    return 1 if (mine or (clauses and not key[1:])) else 0
